@@ -54,6 +54,11 @@ Definition advance_to_recover (lx : clexer) (st : store) : res (bool * clexer) *
   | Some r => recover_loop (fuel_of lx) r lx st
   end.
 
+(** primitive.rs only_filtered_tokens_remain: [rest.next().is_none() && rest.is_empty()] on a clone *)
+Definition only_filtered_remain (lx : clexer) : res bool :=
+  do r <- c_next lx;
+  Ok (match fst r with None => c_at_end (snd r) | Some _ => false end).
+
 Definition lt_opt (n : nat) (hi : option nat) : bool :=   (* hi.map_or(true, |h| n < h) *)
   match hi with None => true | Some h => n <? h end.
 Definition ge_opt (n : nat) (hi : option nat) : bool :=   (* hi.map_or(false, |h| n >= h) *)
@@ -235,6 +240,7 @@ Section WithRun.
         | (ROk v lx1, st1) =>
           mand_loop n lo (Some stopf) (right_of s a c) [v] lx1 st1
             (fun vals cur st2 => opt_loop n hi (Some stopf) (right_of s a c) vals cur st2)
+        | (RErr e, st1) => if lo =? 0 then (ROk (VList []) lx, st1) else (RErr e, st1)
         | r => r
         end
       | r => r
@@ -458,7 +464,9 @@ Fixpoint run (fuel : nat) (g : G) (lx : clexer) (c : ctx) (st : store) {struct f
              | Some t => if tok_eqb t (tk0 k)
                          then lift (c_next l') st (fun '(_, l'') => go r (S cnt) l'')
                          else (ROk (VNat cnt) l', st)
-             | None => (RErr (EUnrecognized es), st)
+             | None =>
+               lift (only_filtered_remain l') st (fun b =>
+               if b then (ROk (VNat cnt) l', st) else (RErr (EUnrecognized es), st))
              end)
          end) ks 0 lx
     | GPred p =>
@@ -471,13 +479,14 @@ Fixpoint run (fuel : nat) (g : G) (lx : clexer) (c : ctx) (st : store) {struct f
       end)
     | GEot =>
       let es := c_parse_span lx in
-      if c_at_end lx then (ROk VUnit lx, st)
+      lift (if c_at_end lx then Ok true else only_filtered_remain lx) st (fun b =>
+      if b then (ROk VUnit lx, st)
       else
         lift (c_peek lx) st (fun '(o, lx') =>
         match o with
         | Some t => (RErr (EUnexpected es (c_token_span lx') ExEot (Some t)), st)
-        | None => (RPanic, st)                           (* lexer.peek().unwrap() *)
-        end)
+        | None => (RErr (EUnrecognized es), st)
+        end))
     (* join.rs *)
     | GBoth a b =>
       on_ok (rec a lx c st) (fun l lx' st' => map_val (fun r => VPair l r) (rec b lx' c st'))
